@@ -284,7 +284,7 @@ func c06CSV(c *core.Ctx, v2 bool) {
 			cols = append(cols, col)
 		}
 		fd := map[string]interface{}{"delimiter": delim, "columns": cols, "data_row_index": 1}
-		headerMode := r.Intn(6) // 0,1: none; 2,3: matching header; 4: mismatching; 5: short header
+		headerMode := r.Intn(7) // 0,1: none; 2,3: matching header; 4: mismatching; 5: short header; 6: the declared names in another order
 		line := 0
 		if headerMode >= 2 {
 			// lines the reader has to skip: plain ones, an empty line followed by a plain one, a quoted field that spans two lines (row
@@ -328,6 +328,21 @@ func c06CSV(c *core.Ctx, v2 bool) {
 				if ncol > 1 {
 					hcells = hcells[:ncol-1]
 					c.Inc("header_mismatch_inputs")
+					wantTerminal = omni.FATAL
+				}
+			case 6:
+				if ncol > 1 {
+					// every declared name is there, two of them swapped (a rotation for three and more): still not the declared header
+					if ncol == 2 || r.Bool() {
+						i := r.Intn(ncol - 1)
+						hcells[i], hcells[i+1] = hcells[i+1], hcells[i]
+					} else {
+						first := hcells[0]
+						copy(hcells[:ncol-1], hcells[1:ncol])
+						hcells[ncol-1] = first
+					}
+					c.Inc("header_mismatch_inputs")
+					c.Inc("header_with_declared_names_in_another_order")
 					wantTerminal = omni.FATAL
 				}
 			}
